@@ -164,3 +164,11 @@ Example C18_example_open_ends :
   pairs KValue [] = [(NMAXF, MAXF)] /\
   hist_names toyf toyd KValue 6 [104] [] = [[104; 46; 45] ++ INFINITY ++ [45] ++ INFINITY].
 Proof. vm_compute. split; reflexivity. Qed.
+
+(* names are arbitrary byte strings: a name made of printf-significant bytes ("%s%")
+   is copied verbatim in front of ".<lower>-<upper>" *)
+Example C18_example_percent_name :
+  hist_names toyf toyd KDuration 6 [37; 115; 37] [1] =
+    [[37; 115; 37; 46; 45] ++ INFINITY ++ [45; 66];        (* %s%.-infinity-B *)
+     [37; 115; 37; 46; 66; 45] ++ INFINITY].               (* %s%.B-infinity *)
+Proof. vm_compute. reflexivity. Qed.
